@@ -23,6 +23,7 @@ ASSUMPTIONS = ['each pipeline stage is fed its own inputs (no real pipeline tran
 PARTIAL = ['clip_transparent is disproved for model-parallel degree > 1 (finding F1); the proved/checked part is nu = 1 '
            'or (pipe = model = 1)', 'stub topology, mock parallel layers, float']
 TOL = 5e-3
+SCRIPT_PEND = []
 
 
 def check_case(ctx, cfg, seed):
@@ -40,6 +41,9 @@ def check_case(ctx, cfg, seed):
     wcfg.world = cfg.world
     wcfg.describe = lambda: case
     kfacsim.oracle_trace(ctx, wcfg, rr, key_prefix='neox-trace')
+    line = neoxsim.script_line(cfg, rr)
+    if line is not None:
+        SCRIPT_PEND.append((case, line, [neoxsim.impl_issues(rr, r) for r in range(cfg.world)]))
     ref = neoxsim.reference(cfg)
     clip_scope_f1 = cfg.kl is not None and (cfg.mp > 1 or cfg.pp > 1)
     bad = None
@@ -217,6 +221,10 @@ def run(ctx):
             if rng.random() < 0.6:
                 cfg.mp, cfg.pp = 1, 1
         check_case(ctx, cfg, ctx.seed * 977 + i)
+    # every rank's collectives (kind, members, element count, root), in order, against the projection of the global
+    # script of M-NeoxScript
+    neoxsim.compare_script(ctx, SCRIPT_PEND)
+    del SCRIPT_PEND[:]
 
 
 def search(ctx):
